@@ -36,6 +36,8 @@ type c18Cfg struct {
 	AuthAbsent bool // Server.Authentication not given at all: the documented default (openid) applies
 	Auth       []string
 	TLS        string // disable | enable
+	TLSRaw     string // non-empty: the literal value of Server.Tls (certificate files are given too)
+	SelRaw     string // non-empty: the literal value of Server.HostSelection
 	Selection  string
 	QueryKey   bool
 	Keytab     bool
@@ -96,7 +98,12 @@ func c18Settings(c c18Cfg, port int, idpURL string) [][2]string {
 	if !c.AuthAbsent {
 		add("Server.Authentication", strings.Join(c.Auth, " "))
 	}
-	if c.TLS == "disable" {
+	if c.TLSRaw != "" {
+		cf, kf := TLSFiles()
+		add("Server.Tls", c.TLSRaw)
+		add("Server.CertFile", cf)
+		add("Server.KeyFile", kf)
+	} else if c.TLS == "disable" {
 		add("Server.Tls", "disable")
 	} else {
 		cf, kf := TLSFiles()
@@ -104,7 +111,11 @@ func c18Settings(c c18Cfg, port int, idpURL string) [][2]string {
 		add("Server.CertFile", cf)
 		add("Server.KeyFile", kf)
 	}
-	add("Server.HostSelection", c.Selection)
+	if c.SelRaw != "" {
+		add("Server.HostSelection", c.SelRaw)
+	} else {
+		add("Server.HostSelection", c.Selection)
+	}
 	if c.Hosts > 0 {
 		add("Server.Hosts", "127.0.0.1:3389")
 	}
@@ -240,7 +251,7 @@ func c18Load(yaml string, env []string) (conf *config.Configuration, refused boo
 
 func c18(env *Env, rep *Report) {
 	rep.Rule = "(L1) the real config.Load in a child process for the full product 16 authentication subsets (those with local also spelled with its alias basic; plus authentication not configured at all, where the documented default openid applies) x TLS {disable, enabled} x host selection {roundrobin, signed, unsigned, any} x query-token key {absent, present} x keytab {absent, present} x cookie auth {on, off} x source {file, RDPGW_ environment, both with the file saying something else}: refusal exactly for the reference's refusal list (except the no-hosts rule, which main() enforces), and the effective settings equal the given ones; plus every combination of 5 key settings x {absent, 1, 31, 32 characters} (quick: each key alone and all pairs; thorough: the full 4^5 block) loaded twice: a 32-character key is kept, an absent or shorter one is replaced by a 32-character value that differs between the two loads; the user-token signing key likewise. " +
-		"(L2) the real rdpgw binary started for authentication subsets x TLS x hosts {0,1} x {signed without key, signed with key, roundrobin} x cookie auth (quick: 96 starts, thorough: 384 + keytab dimension): refused => non-zero exit before listening, startable => listening socket. (L3) two real instances started with absent keys: a session cookie and an access token obtained from instance 1 through a real OpenID login are not accepted by instance 2 (and are accepted by instance 1). distinct_nontrivial = distinct configurations."
+		"(L2) the real rdpgw binary started for authentication subsets x TLS x hosts {0,1} x {signed without key, signed with key, roundrobin} x cookie auth (quick: 96 starts, thorough: 384 + keytab dimension): refused => non-zero exit before listening, startable => listening socket. (L2b) mode names in other spellings (Disable, DISABLE, blanks; Signed, SIGNED, blanks; file and environment): whatever the gateway makes of them, local authentication is never served over plain HTTP and downloads are never handled as signed host selection without a key. (L3) two real instances started with absent keys: a session cookie and an access token obtained from instance 1 through a real OpenID login are not accepted by instance 2 (and are accepted by instance 1). distinct_nontrivial = distinct configurations."
 	rep.Assumptions = append(rep.Assumptions, "documented capitalisation of configuration keys; environment names derived by the documented RDPGW_SECTION__KEY_NAME rule", "keys of 33 and more characters are outside the property",
 		"startup is observed within 20 s (exit status or accepting socket); ACME/auto TLS without certificate files is not started")
 	if env.Replay != nil {
@@ -494,6 +505,68 @@ func c18(env *Env, rep *Report) {
 				rep.sample(map[string]any{"level": "L2 real binary", "config": what, "reference_startable": want, "listening": listening, "exit": g.Exit})
 			}
 			g.Stop()
+		}
+		// spellings: a mode name written in another case or with blanks is either treated as the mode it resembles
+		// (then the start-up rules for that mode apply) or as something else (then the gateway must not behave
+		// like that mode either): local authentication is never served without TLS, and the gateway never runs
+		// signed host selection without a query-token key
+		for _, sp := range []string{"Disable", "DISABLE", " disable", "disable ", "dIsAbLe"} {
+			for _, src := range []string{"file", "env"} {
+				n++
+				if !env.mine(n) {
+					continue
+				}
+				distinct++
+				c := c18Cfg{Auth: []string{"local"}, TLS: "enable", TLSRaw: sp, Selection: "roundrobin", TokenAuth: false, Hosts: 1}
+				port := freePort()
+				yaml, ev := c18Render(c18Settings(c, port, idp.Issuer), src)
+				// L1: what Load returns
+				conf, refused, _ := c18Load(yaml, ev)
+				rep.add("executions", 2)
+				if !refused && conf != nil && conf.Server.Tls == "disable" {
+					rep.violate("C18/unsafe-configuration-accepted-by-config-load/local-authentication-with-TLS-disabled/spelling", fmt.Sprintf("Server.Tls given as %q (%s) with local authentication: accepted, and the effective TLS mode is %q", sp, src, conf.Server.Tls), map[string]any{"noreplay": true})
+				}
+				// L2: what the binary does
+				g := StartGateway(yaml, ev, port, false)
+				if g.Alive() {
+					if cn, err := net.DialTimeout("tcp", "127.0.0.1:"+strconv.Itoa(port), 3*time.Second); err == nil {
+						r := RawRequest(cn, BuildRequest("RDG_OUT_DATA", "/remoteDesktopGateway/", []string{"Connection: Upgrade", "Upgrade: websocket"}))
+						cn.Close()
+						rep.outcome(fmt.Sprintf("L2 tls-spelling plain-status=%d", r.Status))
+						if r.Status == 401 || r.Status == 101 || r.Status == 200 {
+							rep.violate("C18/unsafe-configuration-started/local-authentication-with-TLS-disabled/spelling", fmt.Sprintf("Server.Tls given as %q (%s) with local authentication: the gateway answers plain HTTP on its port with status %d (Basic challenge without TLS)", sp, src, r.Status), map[string]any{"noreplay": true})
+						}
+					}
+				}
+				g.Stop()
+			}
+		}
+		for _, sp := range []string{"Signed", "SIGNED", "signed ", " signed"} {
+			for _, src := range []string{"file", "env"} {
+				n++
+				if !env.mine(n) {
+					continue
+				}
+				distinct++
+				c := c18Cfg{Auth: []string{"openid"}, TLS: "disable", Selection: "roundrobin", SelRaw: sp, TokenAuth: true, Hosts: 1}
+				port := freePort()
+				yaml, ev := c18Render(c18Settings(c, port, idp.Issuer), src)
+				g := StartGateway(yaml, ev, port, false)
+				rep.add("executions", 1)
+				if g.Alive() {
+					cl := newGwClient(g)
+					cl.login(idp, "alice")
+					code, _, body := cl.get("/connect")
+					code2, _, body2 := cl.get("/connect?host=" + c12QueryToken("127.0.0.1:3389", "", []byte("whatever-whatever-whatever-what-"), time.Now().Add(time.Minute), ""))
+					rep.outcome(fmt.Sprintf("L2 selection-spelling connect=%d", code))
+					signedLike := (code == 400 && strings.Contains(body, "invalid query parameter")) || strings.Contains(body2, "cannot verify") || strings.Contains(body2, "signature")
+					_ = code2
+					if signedLike {
+						rep.violate("C18/unsafe-configuration-started/signed-host-selection-without-query-token-key/spelling", fmt.Sprintf("Server.HostSelection given as %q (%s) without a query-token key: the gateway started and treats downloads as signed host selection (%d %q / %q)", sp, src, code, strings.TrimSpace(body), strings.TrimSpace(body2)), map[string]any{"noreplay": true})
+					}
+				}
+				g.Stop()
+			}
 		}
 		if env.Shard == 0 {
 			distinct++
